@@ -230,6 +230,7 @@ func ruleShortLocks(c *Ctx, rule string) {
 			continue
 		}
 		var bad, excused []string
+		onlyCredsCallbacks := true
 		for _, fn := range w.Funcs {
 			if isGenericTemplate(fn) {
 				continue
@@ -251,6 +252,9 @@ func ruleShortLocks(c *Ctx, rule string) {
 						}
 					}
 					bad = append(bad, fmt.Sprintf("%s in %s at %s", e.Kind, w.Short(fn), w.At(e.Instr)))
+					if !(e.Kind == "callback" && a.Allocate != nil && w.ownedBy(fn, a.Allocate)) {
+						onlyCredsCallbacks = false
+					}
 				}
 			}
 		}
@@ -263,7 +267,7 @@ func ruleShortLocks(c *Ctx, rule string) {
 			c.exception(rule, "lock "+l, "-", exc[l].reason+"; excused effects while held: "+strings.Join(excused, "; "))
 			continue
 		}
-		if a.Ch != nil && a.Allocate != nil && l == a.Ch.Obj().Name()+".mu" && allPrefixed(bad, "callback in "+w.Short(a.Allocate)) {
+		if a.Ch != nil && a.Allocate != nil && l == a.Ch.Obj().Name()+".mu" && onlyCredsCallbacks {
 			c.exception(rule, "lock "+l, "-", "observation O-2: the per-RPC credentials callbacks run under the channel mutex ("+strings.Join(bad, "; ")+"); they delay other RPCs only for a credentials provider that is slow or ignores its context, which is not one of the disturbers the statement lists; recorded, not a violation")
 			continue
 		}
